@@ -90,6 +90,16 @@ func TimeframeFromDuration(tf time.Duration) *Timeframe {
 				Duration: tf,
 			}
 		} else if def.Duration > tf {
+			if tf%lowerDur != 0 {
+				// e.g. 90s is not a whole number of minutes: use the largest smaller unit that
+				// divides it, so that the string parses back to the same duration ("90Sec")
+				for j := len(timeframeDefs) - 1; j >= 0; j-- {
+					if d := timeframeDefs[j]; d.Duration < lowerDur && tf%d.Duration == 0 {
+						lowerDur, lowerStr = d.Duration, d.String
+						break
+					}
+				}
+			}
 			coefficient := int(tf / lowerDur)
 			return &Timeframe{
 				String:   fmt.Sprintf("%v%v", coefficient, lowerStr),
@@ -117,11 +127,10 @@ func (cd *CandleDuration) IsWithin(ts, start time.Time) bool {
 		yy1, mm1, dd1 := start.In(ts.Location()).Date()
 		return yy0 == yy1 && mm0 == mm1 && dd0 == dd1
 	case "W":
-		tsY, tsW := ts.ISOWeek()
-		sY, sW := start.ISOWeek()
-		if tsY == sY && tsW == sW {
-			return true
-		}
+		// week windows are cut by Truncate (multiples of the duration, i.e. UTC Mondays), so
+		// membership is decided the same way; ISO weeks in the timestamp's zone disagree with
+		// that near the week boundary and for multi-week windows
+		return ts.Truncate(cd.duration).Equal(start)
 	case "M":
 		switch {
 		case ts.Year() == start.Year():
@@ -156,20 +165,32 @@ func (cd *CandleDuration) Truncate(ts time.Time) time.Time {
 	switch cd.suffix {
 	case "D":
 		yy, mm, dd := ts.Date()
-		return time.Date(yy, mm, dd, 0, 0, 0, 0, ts.Location())
+		return dayStart(yy, mm, dd, ts.Location())
 	case "M":
-		return time.Date(ts.Year(), ts.Month(), 1, 0, 0, 0, 0, ts.Location())
+		return dayStart(ts.Year(), ts.Month(), 1, ts.Location())
 	default:
 		return ts.Truncate(cd.duration)
 	}
+}
+
+// dayStart returns the first instant of a calendar day. Where daylight saving time starts at
+// midnight, 00:00 does not exist and time.Date answers with 23:00 of the previous day.
+func dayStart(yy int, mm time.Month, dd int, loc *time.Location) time.Time {
+	t := time.Date(yy, mm, dd, 0, 0, 0, 0, loc)
+	noon := time.Date(yy, mm, dd, 12, 0, 0, 0, loc)
+	for i := 0; i < 4 && t.Day() != noon.Day(); i++ {
+		t = t.Add(30 * time.Minute)
+	}
+	return t
 }
 
 // Ceil returns the upper boundary time of this candle window that
 // ts belongs to.
 func (cd *CandleDuration) Ceil(ts time.Time) time.Time {
 	if cd.suffix == "D" {
-		yy, mm, dd := ts.Add(Day).Date()
-		return time.Date(yy, mm, dd, 0, 0, 0, 0, ts.Location())
+		// the next calendar day (a day may last 23 or 25 hours)
+		yy, mm, dd := ts.Date()
+		return dayStart(yy, mm, dd+1, ts.Location())
 	}
 	if cd.suffix == "M" {
 		year := ts.Year()
@@ -180,7 +201,7 @@ func (cd *CandleDuration) Ceil(ts time.Time) time.Time {
 		} else {
 			month++
 		}
-		return time.Date(year, month, 1, 0, 0, 0, 0, ts.Location())
+		return dayStart(year, month, 1, ts.Location())
 	}
 
 	return (ts.Add(cd.duration)).Truncate(cd.duration)
